@@ -92,7 +92,9 @@ def applyH (h : Heap) (cross : Bool) : Option Heap :=
   match h.ng2.idx n22node with                   -- n22index
   | none => none
   | some n22index =>
-    let left1 := if h.ob.isUp then !h.left1 else h.left1     -- Inverse()
+    -- Inverse(): `e1.Right() == n1 || e2.Right() == n2` (48c858a): the root is behind n1_2, or
+    -- (the tree having been re-rooted since `newNNI`) behind the neighbour of n2 that is swapped
+    let left1 := if h.ob.isUp || (h.outer n22node).isUp then !h.left1 else h.left1
     some { h with ng1 := h.ng1.set n12index n22node, ng2 := h.ng2.set n22index .b, left1 := left1 }
 
 /-- `nni.Undo` (rearrange.go:161-234), after the `applied` test.  `e2 = n2.br[n12index]`
@@ -108,7 +110,8 @@ def undoH (h : Heap) (cross : Bool) : Option Heap :=
   match h.ng1.idx n11node with                   -- n11index
   | none => none
   | some n11index =>
-    let left1 := if h.ob.isUp then !h.left1 else h.left1     -- Inverse()
+    -- Inverse(): `e2.Right() == n2 || e1.Right() == n1` (48c858a)
+    let left1 := if h.ob.isUp || (h.outer n11node).isUp then !h.left1 else h.left1
     some { h with ng1 := h.ng1.set n11index .b, ng2 := h.ng2.set n12index n11node, left1 := left1 }
 
 /-- What an `nni` object remembers, as positions instead of pointers.
